@@ -559,8 +559,8 @@ def _miri_run(m, prop, tier, seed, cov, many_seeds=False):
             e["MIRIFLAGS"] = flags
         cmd = ["cargo", "+nightly", "miri", "run", "--offline", "--quiet", "--bin", "mon", "--", "--prop", prop, "--threads", "1",
                "--small", str(per), "--small-len", "80" if thorough else "36", "--large", "0", "--w2n", "0", "--no-w3", "--c13", "0", "--offset", str(2000000 + seed * 1000 + k * per),
-               "--seed", str(seed), "--replay-dir", m.REPLAYS, "--known", m.KNOWN, "--stall-secs", "600"]
-        return m.run(cmd, cwd=m.HARNESS, env=e, timeout=2400)
+               "--seed", str(seed), "--replay-dir", m.REPLAYS, "--known", m.KNOWN, "--stall-secs", "1800"]
+        return m.run(cmd, cwd=m.HARNESS, env=e, timeout=3000)
 
     # all processes at once: cargo's build-directory lock serialises the (shared, incremental) build by itself
     with concurrent.futures.ThreadPoolExecutor(max_workers=nproc) as ex:
